@@ -384,6 +384,7 @@ func racePass(c *core.Ctx) {
 	}
 	gcounts := []int{2, 8, 64}
 	procs := []int{1, 2, 3, 4, 5, 6, 7, 16}
+	failures := 0
 	// baselines (written by check.sh): every operation once, sequentially, in a process with GOMAXPROCS=1
 	baseFile := map[string]string{}
 	for _, mode := range []string{"mixed", "qr", "rs", "same", "qrall"} {
@@ -420,6 +421,10 @@ func racePass(c *core.Ctx) {
 				c.R.Count("race.runs", 1)
 				if err != nil {
 					c.Fail("C16", cs, "free-running pass (%s, %d goroutines, GOMAXPROCS=%d, -race) failed: %v\n%s", mode, g, p, err, firstLines(string(out), 40))
+					if failures++; failures >= 3 {
+						c.R.NotDone("S4: stopped after three failing configurations in this shard")
+						return
+					}
 				}
 			}
 		}
@@ -536,6 +541,11 @@ func c16Body(c *core.Ctx) {
 	for _, cm := range s3dCases {
 		if !T && (cm[1] == "AB1" || cm[1] == "hé") {
 			continue // quick: the alphanumeric pipeline is S3b's, byte mode has no pipeline of its own
+		}
+		if !T && cm[1] == "ABCDEFGHIJKLMNOPQRSTUVWXY" {
+			// quick: the three-pipeline capacity case is explored by its default and probe schedules only
+			// (S3e v1 is this very call); the 41-digit case gets the full bound-0 exploration
+			continue
 		}
 		b := -1
 		if !T && cm[1] != "12a" && cm[1] != "ab" && len(cm[1]) < 1000 {
